@@ -32,7 +32,10 @@ CONSTANTS MaxHs,      \* number of handshakes (each asks for a new session id 1,
 
 \* "StaleCheck": TerminateActiveUser returns early when the panel does not hold the caller's record, and in
 \* exchange deletes whatever record the panel holds at the end (check-then-act across two critical sections)
-ASSUME Dev \subseteq {"StaleCheck"} /\ Gates \subseteq {"unlocked", "closed"}
+\* "FreshBucketOnReactivation" (defect D18, ON in the code-faithful configuration): the token buckets are made
+\* by GetUser together with the record (MakeValve) and die with it, so a user whose record was terminated gets
+\* brand-new FULL buckets with the next handshake.  The ideal design keeps the user's buckets across termination.
+ASSUME Dev \subseteq {"StaleCheck", "FreshBucketOnReactivation"} /\ Gates \subseteq {"unlocked", "closed"}
 
 NoSid == 99   \* CloseSession for a session id the record does not have (dispatchConnection after a refused GetSession)
 
@@ -44,8 +47,10 @@ VARIABLES cur,     \* record the panel holds for the user, 0 = none
           nhs,     \* handshakes done
           cl,      \* cl[p] = [pc, rec, sid], pc in idle / unlocked / closed / done
           hist,    \* environment steps with the expected observation
-          everBad  \* OneValve was violated at some point of the behaviour
-vars == <<cur, nrec, sess, swept, objs, nhs, cl, hist, everBad>>
+          everBad, \* OneValve was violated at some point of the behaviour
+          full     \* full buckets handed to the user so far.  The module has no clock: every behaviour may happen
+                   \* within one instant, and then each full bucket is one burst on the wire
+vars == <<cur, nrec, sess, swept, objs, nhs, cl, hist, everBad, full>>
 
 Recs == 1..MaxRec
 Closers == 1..NClosers
@@ -58,7 +63,7 @@ Init == /\ cur = 0 /\ nrec = 0
         /\ sess = [r \in Recs |-> {}] /\ swept = [r \in Recs |-> FALSE]
         /\ objs = <<>> /\ nhs = 0
         /\ cl = [p \in Closers |-> [pc |-> "idle", rec |-> 0, sid |-> 0]]
-        /\ hist = <<>> /\ everBad = FALSE
+        /\ hist = <<>> /\ everBad = FALSE /\ full = 0
 
 Obs(os, c) == [valves |-> Cardinality(LiveRecs(os)), live |-> LiveSids(os), cur |-> c]
 
@@ -80,6 +85,7 @@ Handshake ==
         /\ sess' = [sess EXCEPT ![r] = @ \cup {sid}]
         /\ objs' = os
         /\ nhs' = nhs + 1
+        /\ full' = IF fresh /\ (nrec = 0 \/ "FreshBucketOnReactivation" \in Dev) THEN full + 1 ELSE full
         /\ Note([a |-> "hs", sid |-> sid, rec |-> r, fresh |-> fresh], os, r)
   /\ UNCHANGED <<swept, cl>>
 
@@ -108,7 +114,7 @@ Apply(res, p, r, sid, ev) ==
   /\ cur' = res.st.cur /\ sess' = res.st.sess /\ swept' = res.st.swept /\ objs' = res.st.objs
   /\ cl' = [cl EXCEPT ![p] = [pc |-> res.pc, rec |-> r, sid |-> sid]]
   /\ Note(ev @@ [at |-> res.pc], res.st.objs, res.st.cur)
-  /\ UNCHANGED <<nrec, nhs>>
+  /\ UNCHANGED <<nrec, nhs, full>>
 
 \* a goroutine calls CloseSession(sid) on record r (closers are used in index order: they are interchangeable)
 StartClose(p, r, sid) ==
@@ -129,6 +135,9 @@ Spec == Init /\ [][Next]_vars
 -----------------------------------------------------------------------------
 \* what C19 needs from the panel: all live sessions of the user hang on one record = share one valve
 OneValve == Cardinality(LiveRecs(objs)) <= 1
+
+\* C19 literally, for an instant: rate x 0 + ONE burst, however the user's sessions come and go
+RateBound == full <= 1
 
 Terminal == /\ \A p \in Closers : cl[p].pc = "done"
             /\ (IF nhs = MaxHs THEN TRUE ELSE IF ~NoLookupGap THEN TRUE ELSE (cur = 0 /\ nrec = MaxRec))
